@@ -211,6 +211,31 @@ static void __attribute__((noinline)) do_collect(int churn) {
   }
 }
 
+/* copies of views: copy() of a Range, a Slice and an (already iterated) Zip are managed objects like any other - they iterate
+   like their source, and they and their parts are finalised by a collection or at teardown; returns the number that differ */
+static long view_sig(var v) {
+  long sig = 0, n = 0;
+  foreach (x in v) {
+    if (n++ > 100) break;
+    if (type_of(x) == Tuple) { foreach (y in x) sig = sig * 31 + (long)c_int(y) + 1; } else sig = sig * 31 + (long)c_int(x) + 1;
+  }
+  return sig * 1000 + n;
+}
+static long __attribute__((noinline)) viewcopy_run(void) {
+  long bad = 0;
+  var a = new(Array, Int, $I(5), $I(6), $I(7), $I(8));
+  var views[3];
+  views[0] = new(Range, $I(1), $I(10), $I(3));
+  views[1] = new(Slice, a, $I(1), $I(3));
+  views[2] = new(Zip, a, new(Range, $I(3)));
+  for (int i = 0; i < 3; i++) {
+    long s0 = view_sig(views[i]);            /* (the Zip has been iterated to its end before it is copied) */
+    var c = copy(views[i]);
+    if (type_of(c) != type_of(views[i]) || view_sig(c) != s0 || view_sig(views[i]) != s0) bad++;
+  }
+  return bad;
+}
+
 /* long chains: n objects linked head -> ... -> tail, the head in a stack slot; only counts are logged */
 static uintptr_t* chainp; static long chainn;
 static void __attribute__((noinline)) chain_build(long n, int kind, volatile var* slot) {
@@ -430,6 +455,11 @@ static int __attribute__((noinline)) real_main(int argc, char** argv) {
       HC_TRY(cycles_build(n); scrub(); do_collect(0); do_collect(1); do_collect(0));
       long twice = 0, gone = 0; for (long i = 0; i < n; i++) { if (fin_count[1000 + i] > 1) twice++; if (fin_count[1000 + i] == 1) gone++; }
       ev_begin("bulk"); ev_int("n", n); ev_int("rooted", 0); ev_int("lost", 0); ev_int("twice", twice); ev_int("stale", 0); ev_int("gone", gone);
+      ev_str("exc", hc_exc); ev_int("line", cur_line); ev_end();
+    } else if (hc_is(0, "viewcopy")) {         /* copies of views are ordinary managed objects */
+      volatile long bad = -1;
+      HC_TRY(bad = viewcopy_run(); scrub(); do_collect(0));
+      ev_begin("bulk"); ev_int("n", 3); ev_int("rooted", 0); ev_int("lost", bad); ev_int("twice", 0); ev_int("stale", 0); ev_int("gone", 0);
       ev_str("exc", hc_exc); ev_int("line", cur_line); ev_end();
     } else if (hc_is(0, "stop")) {
       stop(current(GC)); observe("stop", 0, 0, 0, "");
